@@ -126,7 +126,7 @@ func main() {
 			registry.Default.DeregisterAll()
 		}
 		time.Sleep(cfg.Proxy.DeregisterGracePeriod)
-		proxy.Shutdown(cfg.Proxy.ShutdownWait)
+		proxy.Terminate(cfg.Proxy.ShutdownWait)
 		if prof != nil {
 			prof.Stop()
 		}
